@@ -1,88 +1,13 @@
 import NmlVerif.Proofs.ArrayMorph
 /-!
-Helper lemmas for the document clauses of C18 (second pass): documents holding cells without an embedded
-morphology / plain morphologies (`XDoc`), and the proposed loader repair (`loadFixed`).
+Helper lemmas for the document clauses of C18: the loader (a morphology group is recognised by an ARRAY called
+`vertices`) reads every entry the writer makes; documents holding cells without an embedded morphology / plain
+morphologies (`XDoc`): the writer skips those members, their position still counts for the default names.
+The pre-repair writer (`writeXDocOld`: `AttributeError`) is kept for one witness lemma.
 -/
 namespace NmlVerif.ArrayMorph
 
-/-- every cell embeds an `ArrayMorphology`, every stand-alone morphology is one -/
-def AllArray (d : XDoc) : Prop :=
-  (∀ c ∈ d.cells, ∃ m, c.morph = .array m) ∧ (∀ x ∈ d.morphs, ∃ m, x = .array m)
-
-def XCell.toCell? (c : XCell) : Option Cell :=
-  match c.morph with
-  | .array m => some { id := c.id, morph := m }
-  | _ => none
-
-def XMorph.toMorph? : XMorph → Option Morph
-  | .array m => some m
-  | .plain => none
-
-/-- the array morphologies of a document as a `Doc` (all of it when `AllArray`) -/
-def XDoc.arrayDoc (d : XDoc) : Doc :=
-  { cells := d.cells.filterMap XCell.toCell?, morphs := d.morphs.filterMap XMorph.toMorph? }
-
-def Doc.toX (d : Doc) : XDoc :=
-  { cells := d.cells.map (fun c => { id := c.id, morph := .array c.morph }), morphs := d.morphs.map .array }
-
-theorem writeXCells_all : ∀ (cs : List XCell) (k : Nat) (f : H5), (∀ c ∈ cs, ∃ m, c.morph = .array m) →
-    writeXCells k cs f = writeCells k (cs.filterMap XCell.toCell?) f := by
-  intro cs
-  induction cs with
-  | nil => intro k f _; rfl
-  | cons c cs ih =>
-    intro k f h
-    obtain ⟨m, hm⟩ := h c (by simp)
-    have hc : XCell.toCell? c = some { id := c.id, morph := m } := by simp [XCell.toCell?, hm]
-    simp only [writeXCells, hm, List.filterMap_cons, hc, writeCells]
-    cases writeSingleCell { m with id := some (dflt m.id "Morphology" k) } f (some (dflt c.id "Cell" k)) with
-    | error e => rfl
-    | ok f' => exact ih (k + 1) f' (fun x hx => h x (by simp [hx]))
-
-theorem writeXMorphs_all : ∀ (ms : List XMorph) (k : Nat) (f : H5), (∀ x ∈ ms, ∃ m, x = .array m) →
-    writeXMorphs k ms f = writeMorphs k (ms.filterMap XMorph.toMorph?) f := by
-  intro ms
-  induction ms with
-  | nil => intro k f _; rfl
-  | cons x ms ih =>
-    intro k f h
-    obtain ⟨m, hm⟩ := h x (by simp)
-    subst hm
-    simp only [writeXMorphs, List.filterMap_cons, XMorph.toMorph?, writeMorphs]
-    cases writeSingleCell { m with id := some (dflt m.id "Morphology" k) } f none with
-    | error e => rfl
-    | ok f' => exact ih (k + 1) f' (fun x hx => h x (by simp [hx]))
-
-theorem writeXDoc_all (d : XDoc) (h : AllArray d) : writeXDoc d = writeDoc d.arrayDoc := by
-  unfold writeXDoc writeDoc XDoc.arrayDoc
-  rw [writeXCells_all d.cells 0 [] h.1]
-  cases writeCells 0 (d.cells.filterMap XCell.toCell?) [] with
-  | error e => rfl
-  | ok f => exact writeXMorphs_all d.morphs 0 f h.2
-
-/-- a cell without an array morphology stops the writer, wherever it stands -/
-theorem writeXCells_nonarray : ∀ (cs : List XCell) (k : Nat) (f : H5), (∃ c ∈ cs, ∀ m, c.morph ≠ .array m) →
-    ∀ f', writeXCells k cs f ≠ .ok f' := by
-  intro cs
-  induction cs with
-  | nil => intro k f h; obtain ⟨c, hc, _⟩ := h; simp at hc
-  | cons c cs ih =>
-    intro k f h f' hf
-    cases hm : c.morph with
-    | none => simp only [writeXCells, hm] at hf; cases hf
-    | plain => simp only [writeXCells, hm] at hf; cases hf
-    | array m =>
-      simp only [writeXCells, hm] at hf
-      cases hw : writeSingleCell { m with id := some (dflt m.id "Morphology" k) } f (some (dflt c.id "Cell" k)) with
-      | error e => rw [hw] at hf; cases hf
-      | ok f1 =>
-        rw [hw] at hf
-        obtain ⟨c', hc', hna⟩ := h
-        rcases List.mem_cons.mp hc' with rfl | hc'
-        · exact hna m hm
-        · exact ih (k + 1) f1 ⟨c', hc', hna⟩ f' hf
-
-/-! the repaired loader reads every entry the writer makes -/
+/-! ### the loader reads every entry the writer makes -/
 
 theorem flatMap_congr' {α β} {f g : α → List β} : ∀ (l : List α), (∀ x ∈ l, f x = g x) →
     l.flatMap f = l.flatMap g := by
@@ -93,9 +18,13 @@ theorem flatMap_congr' {α β} {f g : α → List β} : ∀ (l : List α), (∀ 
     intro h
     simp only [List.flatMap_cons, h x (by simp), ih (fun y hy => h y (by simp [hy]))]
 
-theorem loadFixed_entries_perm (f : H5) (h : ∀ e ∈ f, ∀ ch, e.2 = .cell ch → ∃ nm a, ch = [(nm, a)]) :
-    loadFixed f = (f.mergeSort nameLe).flatMap entryArrs := by
-  unfold loadFixed
+/-- every cell group of the file holds exactly one morphology group (what the writer produces) -/
+def SingleCells (f : H5) : Prop := ∀ e ∈ f, ∀ ch, e.2 = .cell ch → ∃ nm a, ch = [(nm, a)]
+
+/-- on such a file the loader returns the written triples, root groups in name order — whatever the morphology
+    group inside a cell is called ("vertices" included) -/
+theorem load_entries (f : H5) (h : SingleCells f) : load f = (f.mergeSort nameLe).flatMap entryArrs := by
+  unfold load
   apply flatMap_congr'
   intro e he
   have hmem : e ∈ f := (List.mergeSort_perm f nameLe).mem_iff.mp he
@@ -104,7 +33,11 @@ theorem loadFixed_entries_perm (f : H5) (h : ∀ e ∈ f, ∀ ch, e.2 = .cell ch
   | morph a => rfl
   | cell ch =>
     obtain ⟨cn, a, rfl⟩ := h _ hmem ch rfl
-    simp [nodeMorphsFixed, entryArrs]
+    simp [nodeMorphs, entryArrs]
+
+theorem load_perm (f : H5) (h : SingleCells f) : (load f).Perm (f.flatMap entryArrs) := by
+  rw [load_entries f h]
+  exact List.Perm.flatMap_right _ (List.mergeSort_perm _ _)
 
 theorem cellEntries_single : ∀ (cs : List Cell) (k : Nat), ∀ e ∈ cellEntries k cs, ∀ ch, e.2 = .cell ch →
     ∃ nm a, ch = [(nm, a)] := by
@@ -130,11 +63,280 @@ theorem morphEntries_notcell : ∀ (ms : List Morph) (k : Nat), ∀ e ∈ morphE
     · intro h; cases h
     · exact ih (k + 1) e he ch
 
-theorem entries_single (d : Doc) : ∀ e ∈ entries d, ∀ ch, e.2 = .cell ch → ∃ nm a, ch = [(nm, a)] := by
+theorem entries_single (d : Doc) : SingleCells (entries d) := by
   intro e he ch hch
   unfold entries at he
   rcases List.mem_append.mp he with he | he
   · exact cellEntries_single d.cells 0 e he ch hch
   · exact absurd hch (morphEntries_notcell d.morphs 0 e he ch)
+
+/-! ### documents with members that are not array morphologies -/
+
+/-- every cell embeds an `ArrayMorphology`, every stand-alone morphology is one -/
+def AllArray (d : XDoc) : Prop :=
+  (∀ c ∈ d.cells, ∃ m, c.morph = .array m) ∧ (∀ x ∈ d.morphs, ∃ m, x = .array m)
+
+def XCell.toCell? (c : XCell) : Option Cell :=
+  match c.morph with
+  | .array m => some { id := c.id, morph := m }
+  | _ => none
+
+def XMorph.toMorph? : XMorph → Option Morph
+  | .array m => some m
+  | .plain => none
+
+/-- the array morphologies of a document as a `Doc` (all of it when `AllArray`); NOTE the positions (hence the
+    default names) of the members change when something is dropped: use `xEntries` for the file -/
+def XDoc.arrayDoc (d : XDoc) : Doc :=
+  { cells := d.cells.filterMap XCell.toCell?, morphs := d.morphs.filterMap XMorph.toMorph? }
+
+def Doc.toX (d : Doc) : XDoc :=
+  { cells := d.cells.map (fun c => { id := c.id, morph := .array c.morph }), morphs := d.morphs.map .array }
+
+/-- top-level group names the writer uses: only members that ARE array morphologies get a group, under their id or
+    the default made of their position among ALL members of their list -/
+def xCellNames : Nat → List XCell → List String
+  | _, [] => []
+  | k, c :: cs => match c.morph with
+    | .array _ => dflt c.id "Cell" k :: xCellNames (k + 1) cs
+    | _ => xCellNames (k + 1) cs
+def xMorphNames : Nat → List XMorph → List String
+  | _, [] => []
+  | k, x :: ms => match x with
+    | .array m => dflt m.id "Morphology" k :: xMorphNames (k + 1) ms
+    | .plain => xMorphNames (k + 1) ms
+def xTopNames (d : XDoc) : List String := xCellNames 0 d.cells ++ xMorphNames 0 d.morphs
+
+def xCellEntries : Nat → List XCell → H5
+  | _, [] => []
+  | k, c :: cs => match c.morph with
+    | .array m => (dflt c.id "Cell" k, .cell [(dflt m.id "Morphology" k, m.arr)]) :: xCellEntries (k + 1) cs
+    | _ => xCellEntries (k + 1) cs
+def xMorphEntries : Nat → List XMorph → H5
+  | _, [] => []
+  | k, x :: ms => match x with
+    | .array m => (dflt m.id "Morphology" k, .morph m.arr) :: xMorphEntries (k + 1) ms
+    | .plain => xMorphEntries (k + 1) ms
+/-- the file a document is written to (when no name collides): one root group per member that is an array morphology -/
+def xEntries (d : XDoc) : H5 := xCellEntries 0 d.cells ++ xMorphEntries 0 d.morphs
+
+def xCellArr? (c : XCell) : Option Arr := match c.morph with | .array m => some m.arr | _ => none
+def xMorphArr? : XMorph → Option Arr | .array m => some m.arr | .plain => none
+/-- the array triples of a document: what the property speaks about (cells first) -/
+def xdocArrs (d : XDoc) : List Arr := d.cells.filterMap xCellArr? ++ d.morphs.filterMap xMorphArr?
+
+theorem xCellEntries_names : ∀ cs k, (xCellEntries k cs).map (·.1) = xCellNames k cs := by
+  intro cs; induction cs with
+  | nil => intro k; rfl
+  | cons c cs ih =>
+    intro k
+    cases hm : c.morph <;> simp [xCellEntries, xCellNames, hm, ih]
+theorem xMorphEntries_names : ∀ ms k, (xMorphEntries k ms).map (·.1) = xMorphNames k ms := by
+  intro ms; induction ms with
+  | nil => intro k; rfl
+  | cons x ms ih =>
+    intro k
+    cases x <;> simp [xMorphEntries, xMorphNames, ih]
+
+theorem writeXCells_ok : ∀ cs k (f : H5), (f.map (·.1) ++ xCellNames k cs).Nodup →
+    writeXCells k cs f = .ok (f ++ xCellEntries k cs) := by
+  intro cs
+  induction cs with
+  | nil => intro k f _; simp [writeXCells, xCellEntries]
+  | cons c cs ih =>
+    intro k f hnd
+    cases hm : c.morph with
+    | none =>
+      simp only [xCellNames, hm] at hnd
+      simp only [writeXCells, xCellEntries, hm]
+      exact ih (k + 1) f hnd
+    | plain =>
+      simp only [xCellNames, hm] at hnd
+      simp only [writeXCells, xCellEntries, hm]
+      exact ih (k + 1) f hnd
+    | array m =>
+      simp only [xCellNames, hm] at hnd
+      have hfresh : dflt c.id "Cell" k ∉ f.map (·.1) := by
+        intro hmem
+        have := (List.nodup_append.mp hnd).2.2 _ hmem (dflt c.id "Cell" k) (by simp)
+        exact this rfl
+      simp only [writeXCells, xCellEntries, hm, writeSingleCell, addNode_ok _ hfresh]
+      rw [ih (k + 1) _ (by simpa [List.append_assoc] using hnd)]
+      simp
+
+theorem writeXMorphs_ok : ∀ ms k (f : H5), (f.map (·.1) ++ xMorphNames k ms).Nodup →
+    writeXMorphs k ms f = .ok (f ++ xMorphEntries k ms) := by
+  intro ms
+  induction ms with
+  | nil => intro k f _; simp [writeXMorphs, xMorphEntries]
+  | cons x ms ih =>
+    intro k f hnd
+    cases x with
+    | plain =>
+      simp only [xMorphNames] at hnd
+      simp only [writeXMorphs, xMorphEntries]
+      exact ih (k + 1) f hnd
+    | array m =>
+      simp only [xMorphNames] at hnd
+      have hfresh : dflt m.id "Morphology" k ∉ f.map (·.1) := by
+        intro hmem
+        have := (List.nodup_append.mp hnd).2.2 _ hmem (dflt m.id "Morphology" k) (by simp)
+        exact this rfl
+      simp only [writeXMorphs, xMorphEntries, writeSingleCell, addNode_ok _ hfresh]
+      rw [ih (k + 1) _ (by simpa [List.append_assoc] using hnd)]
+      simp
+
+theorem writeXDoc_ok (d : XDoc) (h : (xTopNames d).Nodup) : writeXDoc d = .ok (xEntries d) := by
+  unfold writeXDoc xEntries
+  unfold xTopNames at h
+  have h1 : writeXCells 0 d.cells [] = .ok (xCellEntries 0 d.cells) := by
+    have := writeXCells_ok d.cells 0 [] (by simpa using (List.nodup_append.mp h).1)
+    simpa using this
+  rw [h1]
+  simp only []
+  exact writeXMorphs_ok d.morphs 0 _ (by rw [xCellEntries_names]; exact h)
+
+theorem xCellEntries_arrs : ∀ cs k, (xCellEntries k cs).flatMap entryArrs = cs.filterMap xCellArr? := by
+  intro cs; induction cs with
+  | nil => intro k; rfl
+  | cons c cs ih =>
+    intro k
+    cases hm : c.morph <;> simp [xCellEntries, xCellArr?, entryArrs, hm, ih]
+theorem xMorphEntries_arrs : ∀ ms k, (xMorphEntries k ms).flatMap entryArrs = ms.filterMap xMorphArr? := by
+  intro ms; induction ms with
+  | nil => intro k; rfl
+  | cons x ms ih =>
+    intro k
+    cases x <;> simp [xMorphEntries, xMorphArr?, entryArrs, ih, List.filterMap_cons]
+
+theorem xEntries_arrs (d : XDoc) : (xEntries d).flatMap entryArrs = xdocArrs d := by
+  unfold xEntries xdocArrs
+  rw [List.flatMap_append, xCellEntries_arrs, xMorphEntries_arrs]
+
+theorem xCellEntries_single : ∀ (cs : List XCell) (k : Nat), ∀ e ∈ xCellEntries k cs, ∀ ch, e.2 = .cell ch →
+    ∃ nm a, ch = [(nm, a)] := by
+  intro cs
+  induction cs with
+  | nil => intro k e he; simp [xCellEntries] at he
+  | cons c cs ih =>
+    intro k e he ch hch
+    cases hm : c.morph with
+    | none => simp only [xCellEntries, hm] at he; exact ih (k + 1) e he ch hch
+    | plain => simp only [xCellEntries, hm] at he; exact ih (k + 1) e he ch hch
+    | array m =>
+      simp only [xCellEntries, hm, List.mem_cons] at he
+      rcases he with rfl | he
+      · simp only [Node.cell.injEq] at hch
+        exact ⟨_, _, hch.symm⟩
+      · exact ih (k + 1) e he ch hch
+
+theorem xMorphEntries_notcell : ∀ (ms : List XMorph) (k : Nat), ∀ e ∈ xMorphEntries k ms, ∀ ch, e.2 ≠ .cell ch := by
+  intro ms
+  induction ms with
+  | nil => intro k e he; simp [xMorphEntries] at he
+  | cons x ms ih =>
+    intro k e he ch
+    cases x with
+    | plain => simp only [xMorphEntries] at he; exact ih (k + 1) e he ch
+    | array m =>
+      simp only [xMorphEntries, List.mem_cons] at he
+      rcases he with rfl | he
+      · intro h; cases h
+      · exact ih (k + 1) e he ch
+
+theorem xEntries_single (d : XDoc) : SingleCells (xEntries d) := by
+  intro e he ch hch
+  unfold xEntries at he
+  rcases List.mem_append.mp he with he | he
+  · exact xCellEntries_single d.cells 0 e he ch hch
+  · exact absurd hch (xMorphEntries_notcell d.morphs 0 e he ch)
+
+/-- the number of root groups = the number of members that are array morphologies -/
+theorem xEntries_length (d : XDoc) : (xEntries d).length = (xdocArrs d).length := by
+  have h1 : ∀ cs k, (xCellEntries k cs).length = (cs.filterMap xCellArr?).length := by
+    intro cs; induction cs with
+    | nil => intro k; rfl
+    | cons c cs ih => intro k; cases hm : c.morph <;> simp [xCellEntries, xCellArr?, hm, ih]
+  have h2 : ∀ ms k, (xMorphEntries k ms).length = (ms.filterMap xMorphArr?).length := by
+    intro ms; induction ms with
+    | nil => intro k; rfl
+    | cons x ms ih => intro k; cases x <;> simp [xMorphEntries, xMorphArr?, ih, List.filterMap_cons]
+  simp [xEntries, xdocArrs, h1, h2]
+
+/-! on documents made of array morphologies only, the `XDoc` writer IS the `Doc` writer -/
+
+theorem writeXCells_toX : ∀ (cs : List Cell) (k : Nat) (f : H5),
+    writeXCells k (cs.map (fun c => { id := c.id, morph := .array c.morph })) f = writeCells k cs f := by
+  intro cs
+  induction cs with
+  | nil => intro k f; rfl
+  | cons c cs ih =>
+    intro k f
+    simp only [List.map_cons, writeXCells, writeCells]
+    cases writeSingleCell { c.morph with id := some (dflt c.morph.id "Morphology" k) } f (some (dflt c.id "Cell" k)) with
+    | error e => rfl
+    | ok f' => exact ih (k + 1) f'
+
+theorem writeXMorphs_toX : ∀ (ms : List Morph) (k : Nat) (f : H5),
+    writeXMorphs k (ms.map .array) f = writeMorphs k ms f := by
+  intro ms
+  induction ms with
+  | nil => intro k f; rfl
+  | cons m ms ih =>
+    intro k f
+    simp only [List.map_cons, writeXMorphs, writeMorphs]
+    cases writeSingleCell { m with id := some (dflt m.id "Morphology" k) } f none with
+    | error e => rfl
+    | ok f' => exact ih (k + 1) f'
+
+theorem writeXDoc_toX (d : Doc) : writeXDoc d.toX = writeDoc d := by
+  unfold writeXDoc writeDoc Doc.toX
+  simp only [writeXCells_toX]
+  cases writeCells 0 d.cells [] with
+  | error e => rfl
+  | ok f => exact writeXMorphs_toX d.morphs 0 f
+
+theorem filterMap_congr' {α β} {f g : α → Option β} : ∀ (l : List α), (∀ x ∈ l, f x = g x) →
+    l.filterMap f = l.filterMap g := by
+  intro l
+  induction l with
+  | nil => intro _; rfl
+  | cons x xs ih =>
+    intro h
+    simp only [List.filterMap_cons, h x (by simp), ih (fun y hy => h y (by simp [hy]))]
+
+theorem xdocArrs_arrayDoc (d : XDoc) : xdocArrs d = docArrs d.arrayDoc := by
+  unfold xdocArrs docArrs XDoc.arrayDoc
+  simp only [List.map_filterMap]
+  congr 1
+  · apply filterMap_congr'
+    intro c _
+    cases hm : c.morph <;> simp [xCellArr?, XCell.toCell?, hm]
+  · apply filterMap_congr'
+    intro x _
+    cases x <;> simp [xMorphArr?, XMorph.toMorph?]
+
+/-! the pre-repair writer: a cell without an array morphology stops it, wherever it stands -/
+
+theorem writeXCellsOld_nonarray : ∀ (cs : List XCell) (k : Nat) (f : H5), (∃ c ∈ cs, ∀ m, c.morph ≠ .array m) →
+    ∀ f', writeXCellsOld k cs f ≠ .ok f' := by
+  intro cs
+  induction cs with
+  | nil => intro k f h; obtain ⟨c, hc, _⟩ := h; simp at hc
+  | cons c cs ih =>
+    intro k f h f' hf
+    cases hm : c.morph with
+    | none => simp only [writeXCellsOld, hm] at hf; cases hf
+    | plain => simp only [writeXCellsOld, hm] at hf; cases hf
+    | array m =>
+      simp only [writeXCellsOld, hm] at hf
+      cases hw : writeSingleCell { m with id := some (dflt m.id "Morphology" k) } f (some (dflt c.id "Cell" k)) with
+      | error e => rw [hw] at hf; cases hf
+      | ok f1 =>
+        rw [hw] at hf
+        obtain ⟨c', hc', hna⟩ := h
+        rcases List.mem_cons.mp hc' with rfl | hc'
+        · exact hna m hm
+        · exact ih (k + 1) f1 ⟨c', hc', hna⟩ f' hf
 
 end NmlVerif.ArrayMorph
